@@ -132,7 +132,8 @@ class C06(Property):
                                  (1, "sub"), (1, "neg"), (1, "div"),
                                  (2, "pow"), (2, "addc"), (2, "dupscale"),
                                  (1, "copyadd"), (1, "copymul"),
-                                 (2, "zeronum")])
+                                 (2, "zeronum"), (2, "cascade"),
+                                 (1, "parallel"), (2, "divterm")])
     if shape == "zeronum":
       # free response: empty numerator, feedback only (needs a delay term)
       tree = single()
@@ -164,6 +165,18 @@ class C06(Property):
       a = single()
       a["num"], a["den"] = a["num"][:2], a["den"][:2]
       tree = {"op": shape, "a": a}
+    elif shape in ("cascade", "parallel"):
+      tree = {"op": shape, "a": single(), "b": single()}
+    elif shape == "divterm":
+      # division by a single delayed (possibly time-varying) term
+      dk = 1 + W.choose("dk", 2)
+      a = single()
+      a["route"] = "expr"
+      a["num"] = [[k + dk, c] for k, c in a["num"][:3]]    # stays causal
+      tree = {"op": "div", "a": a,
+              "b": {"op": "single", "route": "expr",
+                    "num": [[dk, coeff(p_stream=(2, 3))]],
+                    "den": [[0, ["c", 1]]]}}
     elif shape == "sub":
       tree = {"op": "sub", "a": single(), "b": single()}
     elif shape == "neg":
@@ -290,6 +303,16 @@ class C06(Property):
       {"tree": {"op": "copymul",
                 "a": single([[0, S(1)], [1, C(2)]], [[0, C(1)], [1, S(2)]])},
        "lens": {"1": None, "2": None}, "xlen": 8, "cstream": 0},
+      {"tree": {"op": "cascade", "a": single([[1, S(1)]]),
+                "b": single([[1, S(2)], [2, C(1)]])},
+       "lens": {"1": None, "2": 9}, "xlen": None, "cstream": 0},
+      {"tree": {"op": "parallel", "a": single([[0, S(1)]], [[0, C(1)],
+                                                            [1, S(2)]]),
+                "b": single([[1, C(2)]])},
+       "lens": {"1": 7, "2": None}, "xlen": None, "cstream": 0},
+      {"tree": {"op": "div", "a": single([[1, C(1)], [2, C(2)], [3, S(1)]]),
+                "b": single([[1, S(2)]])},
+       "lens": {"1": None, "2": 8}, "xlen": 9, "cstream": 0},
       {"tree": {"op": "pow", "n": 3,
                 "a": single([[0, S(1)], [1, C(2)]], [[0, C(1)], [1, S(2)]])},
        "lens": {"1": None, "2": 9}, "xlen": 7, "cstream": 0},
@@ -366,6 +389,10 @@ class C06(Property):
         return rec(t["a"]) / rec(t["b"])
       if op == "pow":
         return rec(t["a"]) ** t["n"]
+      if op == "cascade":
+        return self.lf.CascadeFilter([rec(t["a"]), rec(t["b"])])
+      if op == "parallel":
+        return self.lf.ParallelFilter([rec(t["a"]), rec(t["b"])])
       if op == "addc":
         f, c = rec(t["a"]), cval(t["c"])
         return {"f+c": lambda: f + c, "c+f": lambda: c + f,
@@ -537,88 +564,112 @@ class C06(Property):
     horizon = (out_len + 2) if out_len is not None else HORIZON
     res.counters["shape." + tree["op"]] += 1
 
-    # ---- build A: inspect the filter's own coefficient sequences
-    srcA = self.make_sources(wl, sids, endless_horizon=horizon + 2)
-    try:
-      fA = self.build(tree, srcA)
-    except Exception as exc:
-      raise _Mismatch("construct-raised", "building the filter raised %r"
-                      % (exc,))
-    for s in srcA.values():
-      if s.delivered:
-        raise _Mismatch("accounting:construction-read",
-                        "building the filter read %d items of %s"
-                        % (s.delivered, s.name))
-    Stream = self.ls.Stream
-
-    def seq_of(coeff):
-      if isinstance(coeff, Stream):
-        return list(coeff.take(horizon + 2)), True
-      return coeff, False
-
-    numA, denA = {}, {}
-    try:
-      for k, c in list(fA.numpoly.terms()):
-        numA[k] = seq_of(c)
-      for k, c in list(fA.denpoly.terms()):
-        denA[k] = seq_of(c)
-    except Exception as exc:
-      raise _Mismatch("inspect-raised", "reading the coefficient streams "
-                      "raised %r" % (exc,))
-    if any(k < 0 for k in list(numA) + list(denA)) or 0 not in denA:
-      raise _Mismatch("not-causal", "built filter has powers num %r den %r"
-                      % (sorted(numA), sorted(denA)))
-    if isinstance(denA[0][0], list):
-      res.counters["probe.stream-a0"] += 1
-
-    def at(entry, n):
-      seq, is_stream = entry
-      if is_stream:
-        return seq[n] if n < len(seq) else None
-      return Fraction(seq)
-
-    # ---- (0)/(2): coefficient values at every n vs the specification
     ncheck = horizon if out_len is None else out_len
-    for n in range(ncheck):
-      na = dict((k, at(e, n)) for k, e in numA.items())
-      da = dict((k, at(e, n)) for k, e in denA.items())
-      if any(v is None for v in list(na.values()) + list(da.values())):
-        raise _Mismatch("coefficient-stream-too-short",
-                        "a coefficient stream of the built filter ends at "
-                        "n=%d, its sources last %r" % (n, out_len))
-      ns, ds = self.spec_polys(tree, n)
-      na = dict((k, v) for k, v in na.items() if v != 0)
-      da = dict((k, v) for k, v in da.items() if v != 0)
-      if tree["op"] == "single":
-        if na != ns or da != ds:
-          raise _Mismatch("construction", "n=%d: built filter has num %r den "
-                          "%r, specified num %r den %r" % (n, na, da, ns, ds))
-      elif pmul(na, ds) != pmul(ns, da):
-        raise _Mismatch("algebra", "n=%d: composite num %r den %r is not the "
-                        "%s of its operands (num %r den %r)"
-                        % (n, na, da, tree["op"], ns, ds))
 
-    # ---- expected output: the difference equation on A's own sequences
+    def model_of(sub):
+      """ Inspects an identical build of ``sub`` (clauses 0 and 2) and
+      returns its difference-equation simulator. """
+      # ---- build A: inspect the filter's own coefficient sequences
+      srcA = self.make_sources(wl, self.tree_sids(sub),
+                                 endless_horizon=horizon + 2)
+      try:
+        fA = self.build(sub, srcA)
+      except Exception as exc:
+        raise _Mismatch("construct-raised", "building the filter raised %r"
+                        % (exc,))
+      for s in srcA.values():
+        if s.delivered:
+          raise _Mismatch("accounting:construction-read",
+                          "building the filter read %d items of %s"
+                          % (s.delivered, s.name))
+      Stream = self.ls.Stream
+
+      def seq_of(coeff):
+        if isinstance(coeff, Stream):
+          return list(coeff.take(horizon + 2)), True
+        return coeff, False
+
+      numA, denA = {}, {}
+      try:
+        for k, c in list(fA.numpoly.terms()):
+          numA[k] = seq_of(c)
+        for k, c in list(fA.denpoly.terms()):
+          denA[k] = seq_of(c)
+      except Exception as exc:
+        raise _Mismatch("inspect-raised", "reading the coefficient streams "
+                        "raised %r" % (exc,))
+      if any(k < 0 for k in list(numA) + list(denA)) or 0 not in denA:
+        raise _Mismatch("not-causal", "built filter has powers num %r den %r"
+                        % (sorted(numA), sorted(denA)))
+      if isinstance(denA[0][0], list):
+        res.counters["probe.stream-a0"] += 1
+
+      def at(entry, n):
+        seq, is_stream = entry
+        if is_stream:
+          return seq[n] if n < len(seq) else None
+        return Fraction(seq)
+
+      # ---- (0)/(2): coefficient values at every n vs the specification
+      for n in range(ncheck):
+        na = dict((k, at(e, n)) for k, e in numA.items())
+        da = dict((k, at(e, n)) for k, e in denA.items())
+        if any(v is None for v in list(na.values()) + list(da.values())):
+          raise _Mismatch("coefficient-stream-too-short",
+                          "a coefficient stream of the built filter ends at "
+                          "n=%d, its sources last %r" % (n, out_len))
+        ns, ds = self.spec_polys(sub, n)
+        na = dict((k, v) for k, v in na.items() if v != 0)
+        da = dict((k, v) for k, v in da.items() if v != 0)
+        if sub["op"] == "single":
+          if na != ns or da != ds:
+            raise _Mismatch("construction", "n=%d: built filter has num %r den "
+                            "%r, specified num %r den %r" % (n, na, da, ns, ds))
+        elif pmul(na, ds) != pmul(ns, da):
+          raise _Mismatch("algebra", "n=%d: composite num %r den %r is not the "
+                          "%s of its operands (num %r den %r)"
+                          % (n, na, da, sub["op"], ns, ds))
+
+      # ---- expected output: the difference equation on A's own sequences
+      order = max(denA)
+
+      def simulate(xs, memory):
+        ys = []
+        for n in range(len(xs)):
+          acc = Fraction(0)
+          for k, e in numA.items():
+            if n - k >= 0:
+              acc += at(e, n) * xs[n - k]
+          for k, e in denA.items():
+            if k >= 1 and n - k >= 0:
+              acc -= at(e, n) * ys[n - k]
+            elif k >= 1 and memory is not None:
+              acc -= at(e, n) * memory[k - n - 1]
+          a0 = at(denA[0], n)
+          ys.append(acc / a0)
+        return ys
+      return simulate, order
+
+
     xs = [x_value(i) for i in range(ncheck)]
-    ys = []
-    order = max(denA)
     memory = None
-    if wl.get("memory") and order >= 1:
-      # exactly as long as the filter needs: y[-1], y[-2], ...
-      memory = [Fraction(3 + 2 * j, 2) for j in range(order)]
-      res.counters["probe.non-zero-memory"] += 1
-    for n in range(ncheck):
-      acc = Fraction(0)
-      for k, e in numA.items():
-        if n - k >= 0:
-          acc += at(e, n) * xs[n - k]
-      for k, e in denA.items():
-        if k >= 1 and n - k >= 0:
-          acc -= at(e, n) * ys[n - k]
-        elif k >= 1 and memory is not None:
-          acc -= at(e, n) * memory[k - n - 1]
-      a0 = at(denA[0], n)
-      ys.append(acc / a0)
+    if tree["op"] in ("cascade", "parallel"):
+      # members are applied one after the other / side by side, each with its
+      # own coefficient streams sampled once per output sample
+      sim_a, _ = model_of(tree["a"])
+      sim_b, _ = model_of(tree["b"])
+      if tree["op"] == "cascade":
+        ys = sim_b(sim_a(xs, None), None)
+      else:
+        ys = [u + v for u, v in zip(sim_a(xs, None), sim_b(xs, None))]
+      res.counters["probe.filter-list-of-time-varying-members"] += 1
+    else:
+      simulate, order = model_of(tree)
+      if wl.get("memory") and order >= 1:
+        # exactly as long as the filter needs: y[-1], y[-2], ...
+        memory = [Fraction(3 + 2 * j, 2) for j in range(order)]
+        res.counters["probe.non-zero-memory"] += 1
+      ys = simulate(xs, memory)
 
     # ---- build B: run with read accounting
     srcB = self.make_sources(wl, sids)
@@ -717,7 +768,7 @@ class C06(Property):
                           % (out_len, r.name, r.delivered, out_len))
     # a stream feeding several product terms
     if tree["op"] in ("mul", "add", "sub", "div", "pow", "copyadd", "copymul",
-                      "dupscale", "addc") and sids:
+                      "dupscale", "addc", "cascade", "parallel") and sids:
       res.counters["probe.stream-feeds-several-terms"] += 1
 
     # ---- (5) constant as constant stream (single and scaled filters only)
